@@ -176,7 +176,9 @@ Section Query.
                 obind (expect TOpenObj ts) (fun r =>
                   obind (if is_oneof then oneof_body orc e more_at_end fuel 0 ps r sub [] [] None
                          else object_body orc e more_at_end fuel 0 ps r sub [])
-                        (fun sr => obind (expect TCloseObj (snd sr)) (fun r2 => Ok (fst sr, r2)))) in
+                        (fun sr => obind (expect TCloseObj (snd sr)) (fun r2 =>
+                           (* decodeRoot's end-of-input check on the parameter's text *)
+                           obind (end_of_input r2 (lex_at_eof v')) (fun _ => Ok (fst sr, r2))))) in
               let kid := match parse_value (S (length ts)) ts with
                          | Some (j, _) => qtree_of_json (S (length ts)) e ps j
                          | None => QT [] []
